@@ -224,3 +224,207 @@ func runPub(c Case) lib.Result {
 	sort.Strings(res.Tags)
 	return res
 }
+
+// ---- several formats open on one channel; Flush / SetPause between batches; plain files ----
+// At most maxBetweenFlushes records are written between two flushes, far fewer than the queue holds, so
+// every record is accepted and each open file must contain ALL records written when the call returns.
+const maxBetweenFlushes = 60
+
+type flushFile struct {
+	name  string // "22" "3" "off"
+	path  string
+	hdr   []byte
+	recs  [][]byte
+	snapN []int
+	snapB [][]byte
+}
+
+func runPubFlush(c Case) lib.Result {
+	res := lib.Result{ID: c.ID, Hash: lib.Hash(struct {
+		K, F string
+		N    int
+		O    []GOp
+	}{"pubflush", c.Fmt, c.N, c.Ops})}
+	dir, _ := os.Getwd()
+	tags := map[string]bool{"multi-format-flush": true, "formats-" + c.Fmt: true}
+	bench, err := dastard.VerifNewBench(2, pubNpre, c.N, 100000, nil)
+	if err != nil {
+		panic(err)
+	}
+	defer bench.Close()
+	stamp := time.Now().UnixNano()
+	ctime := time.Unix(1700000123, 456000000).UTC()
+	nb := 8
+	has := func(f string) bool { // c.Fmt is e.g. "22+off", "22+3+off"
+		for _, p := range splitPlus(c.Fmt) {
+			if p == f {
+				return true
+			}
+		}
+		return false
+	}
+	var files []*flushFile
+	configure := func(dsp *dastard.DataStreamProcessor, suffix string, collect bool) {
+		dp := dsp.VerifPublisher()
+		mk := func(name string) string {
+			p := filepath.Join(dir, fmt.Sprintf("c07_mf_%d_%d_%d_%s_%s", os.Getpid(), c.ID, stamp, name, suffix))
+			if collect {
+				files = append(files, &flushFile{name: name, path: p})
+			}
+			return p
+		}
+		if has("22") {
+			dp.SetLJH22(3, pubNpre, c.N, 1, 1e-5, t0, 4, 2, 8, 64, 2, 1, 5, mk("22"), "verif", "chan3", 3, dastard.Pixel{Name: "p"})
+		}
+		if has("3") {
+			dp.SetLJH3(3, 1e-5, 4, 2, 64, 5, mk("3"))
+		}
+		if has("off") {
+			pd := make([]float64, nb*4)
+			bd := make([]float64, nb*4)
+			for i := range pd {
+				pd[i] = float64(i % 4)
+				bd[i] = float64(i%5) - 1
+			}
+			dp.SetOFF(3, pubNpre, c.N, 1, 1e-5, t0, 4, 2, 8, 64, 2, 1, 5, mk("off"), "verif", "chan3", 3,
+				mat.NewDense(nb, 4, pd), mat.NewDense(4, nb, bd), "model", dastard.Pixel{Name: "p"})
+			dp.OFF.CreationInfo.CreationTime = ctime
+		}
+	}
+	record := func(i int) (dastard.VerifRecord, map[string][]byte) {
+		frame, ns := int64(1+i), int64(1000*(7+i%249))
+		data := make([]uint16, c.N)
+		for j := range data {
+			data[j] = sample(i, j)
+		}
+		coefs := make([]float64, nb)
+		c32 := make([]float32, nb)
+		for j := range coefs {
+			coefs[j] = float64((i + 3*j) % 64)
+			c32[j] = float32(coefs[j])
+		}
+		exp := map[string][]byte{}
+		exp["22"] = append(append(le(frame*64+5), le(ns/1000)...), le(data)...)
+		exp["3"] = append(append(append(append(le(int32(c.N)), le(int32(pubNpre+1))...), le(frame)...), le(ns/1000)...), le(data)...)
+		o := le(int32(c.N))
+		for _, p := range [][]byte{le(int32(pubNpre)), le(frame), le(ns), le(float32(2)), le(float32(0)), le(float32(1)), le(c32)} {
+			o = append(o, p...)
+		}
+		exp["off"] = o
+		return dastard.VerifRecord{Chan: 0, Frame: frame, TimeNs: ns, Pre: pubNpre, Data: data, PretrigMean: 2,
+			ResidualStdDev: 1, ModelCoefs: coefs}, exp
+	}
+	// reference headers: the first record through the second processor, files closed at once
+	var refs []*flushFile
+	{
+		save := files
+		files = nil
+		configure(bench.VerifDsp(1), "ref", true)
+		refs, files = files, save
+		r0, e0 := record(0)
+		if err := bench.VerifDsp(1).VerifPublish([]dastard.VerifRecord{r0}); err != nil {
+			panic(err)
+		}
+		rdp := bench.VerifDsp(1).VerifPublisher()
+		rdp.RemoveLJH22()
+		rdp.RemoveLJH3()
+		rdp.RemoveOFF()
+		for _, rf := range refs {
+			whole, err := os.ReadFile(rf.path)
+			os.Remove(rf.path)
+			if err != nil || len(whole) < len(e0[rf.name]) {
+				panic(fmt.Sprint("c07: reference file ", rf.path, err))
+			}
+			rf.hdr = whole[:len(whole)-len(e0[rf.name])]
+		}
+	}
+	dsp := bench.VerifDsp(0)
+	configure(dsp, "out", true)
+	for k, f := range files {
+		f.hdr = refs[k].hdr
+		defer os.Remove(f.path)
+	}
+	dp := dsp.VerifPublisher()
+	snapshot := func() {
+		for _, f := range files {
+			b, _ := os.ReadFile(f.path)
+			f.snapN = append(f.snapN, len(f.recs))
+			f.snapB = append(f.snapB, b)
+		}
+	}
+	i, since := 0, 0
+	for _, op := range c.Ops {
+		switch op.Op {
+		case "B":
+			for k := 0; k < op.N && since < maxBetweenFlushes; {
+				n := 1 + (i % 4)
+				var batch []dastard.VerifRecord
+				for b := 0; b < n && k < op.N && since < maxBetweenFlushes; b++ {
+					r, exp := record(i)
+					batch = append(batch, r)
+					for _, f := range files {
+						f.recs = append(f.recs, exp[f.name])
+					}
+					i++
+					k++
+					since++
+				}
+				if err := dsp.VerifPublish(batch); err != nil {
+					tags["publish-error"] = true
+				}
+			}
+		case "F":
+			dp.Flush()
+			snapshot()
+			since = 0
+			tags["flush"] = true
+		case "P":
+			dp.SetPause(true)
+			snapshot()
+			dp.SetPause(false)
+			since = 0
+			tags["pause"] = true
+		}
+	}
+	dp.RemoveLJH22()
+	dp.RemoveLJH3()
+	dp.RemoveOFF()
+	snapshot() // after close
+	var fterms []string
+	impl := map[string]interface{}{}
+	for _, f := range files {
+		var rs, sn []string
+		for _, r := range f.recs {
+			rs = append(rs, segs(r))
+		}
+		var lens []int
+		for k := range f.snapN {
+			sn = append(sn, fmt.Sprintf("(%d, %s)", f.snapN[k], nested(segList(f.snapB[k]), 400)))
+			lens = append(lens, len(f.snapB[k]))
+		}
+		fterms = append(fterms, fmt.Sprintf("mkF %s\n   %s\n   %s", segs(f.hdr), lib.List(rs), lib.List(sn)))
+		impl[f.name] = map[string]interface{}{"header_len": len(f.hdr), "records": len(f.recs), "records_at_flush": f.snapN, "file_len_at_flush": lens}
+	}
+	res.Term = "mkFC " + lib.List(fterms)
+	res.Impl = impl
+	res.NonTrivial = false
+	for t := range tags {
+		res.Tags = append(res.Tags, t)
+	}
+	sort.Strings(res.Tags)
+	return res
+}
+
+func splitPlus(s string) []string {
+	var out []string
+	cur := ""
+	for _, ch := range s {
+		if ch == '+' {
+			out = append(out, cur)
+			cur = ""
+		} else {
+			cur += string(ch)
+		}
+	}
+	return append(out, cur)
+}
